@@ -65,7 +65,8 @@ theorem hasE_mgrPodAdd (s : St) (q : Nat) (p : PodObj) (q' pid : Nat) :
       simp only [hk, hn, Bool.not_true, Bool.or_false, Bool.false_eq_true, if_false, Bool.true_and]
       split <;> simp [hasE_setAsg, hasE_addE]
   · simp only [Bool.not_eq_true] at hk
-    simp [hk]
+    have hk' : q ∉ s.known := by simpa using hk
+    simp [hk']
 
 theorem mgrPodAdd_eff (s : St) (q : Nat) (p : PodObj) (hk : s.known.contains q = true)
     (hn : hasE s q p.id = false) (hr : 0 ≤ getC s.req q + p.req) (hu : 0 ≤ getC s.used q + p.req) :
@@ -117,16 +118,18 @@ theorem fold_known_contains (l : List Nat) (k : List Nat) (m : Nat) :
     by_cases h : k.contains a = true
     · simp only [h, if_true, List.contains_cons]
       by_cases hm : m = a
-      · subst hm; simp [h]
+      · subst hm
+        have h' : m ∈ k := by simpa using h
+        simp [h']
       · have : (m == a) = false := by simp [hm]
         simp [this]
     · simp only [h, if_false, Bool.false_eq_true, List.contains_cons]
       cases (m == a) <;> simp
 
 theorem replace_known (s : St) (m : Nat) :
-    (replaceQuotas s).known.contains m = (m == 1 || m == 2 || (s.store.map (·.name)).contains m) := by
+    (replaceQuotas s).known.contains m = true ↔ (m = 1 ∨ m = 2 ∨ ∃ q ∈ s.store, q.name = m) := by
   simp only [replaceQuotas, fold_known_contains]
-  simp [List.contains_cons]
+  simp [or_assoc]
 
 theorem migrateAll_noop (s : St)
     (h : s.cache.all (fun e => e.q != dflt || resolve s e.obj == dflt) = true) : migrateAll s = s := by
@@ -195,7 +198,7 @@ theorem onQuotaPut_known (s : St) (q : QObj) (m : Nat) :
   split
   · rename_i h
     by_cases hm : m = q.name
-    · subst hm; simp [h]
+    · subst hm; rw [h]; simp
     · have : (m == q.name) = false := by simp [hm]
       simp [this]
   · simp only [List.contains_cons]; rw [Bool.or_comm]
@@ -254,36 +257,25 @@ theorem DInv_padd {s : St} {A : List PodObj} {rf : PodObj → Nat} (h : DInv s A
 
 /-! ### running a delivery -/
 
-theorem okOrder_cons (s fin : St) (seen : Bool) (op : Op) (ops : List Op) :
-    okOrderFrom s fin seen (op :: ops) =
-      ((match op with
-        | .padd p => resolve s p == resolve fin p
-        | .replace => !seen
-        | .migrate => s.cache.all (fun e => e.q != dflt || resolve s e.obj == dflt)
-        | _ => true) &&
-       okOrderFrom (step s op) fin (seen || (match op with | .padd _ => true | _ => false)) ops) := by
-  simp only [okOrderFrom]
-
-theorem DInv_step {s fin : St} {A : List PodObj} {F : List QObj} (h : DInv s A (resolve fin))
-    (hnd : NodupIds A) (hnn : ∀ o ∈ A, 0 ≤ o.req) {op : Op} {seen : Bool} {ops : List Op}
-    (hop : isDeliveryOp F A op = true) (ho : okOrderFrom s fin seen (op :: ops) = true) :
-    DInv (step s op) A (resolve fin) := by
-  rw [okOrder_cons, Bool.and_eq_true] at ho
-  cases op with
-  | qstore q => exact DInv_congr h rfl rfl rfl h.k1
-  | qput q =>
-    exact DInv_congr h (onQuotaPut_cache s q) (onQuotaPut_req s q) (onQuotaPut_used s q)
-      (by rw [onQuotaPut_known, h.k1]; rfl)
-  | replace => exact DInv_empty _ _ _ (by rw [replace_known]; rfl) rfl rfl rfl
-  | padd p =>
-    simp only [isDeliveryOp, List.contains_eq_mem, decide_eq_true_eq] at hop
-    exact DInv_padd h hnd hnn hop (by simpa using ho.1)
-  | migrate => simp only [step]; rw [migrateAll_noop s ho.1]; exact h
-  | qdel n => simp [isDeliveryOp] at hop
-  | pupd o n => simp [isDeliveryOp] at hop
-  | pdel p => simp [isDeliveryOp] at hop
-  | resv p => simp [isDeliveryOp] at hop
-  | unresv p => simp [isDeliveryOp] at hop
+theorem okOrder_padd {s fin : St} {seen : Bool} {p : PodObj} {ops : List Op}
+    (h : okOrderFrom s fin seen (.padd p :: ops) = true) :
+    resolve s p = resolve fin p ∧ okOrderFrom (onPodAdd s p) fin true ops = true := by
+  simp only [okOrderFrom, Bool.and_eq_true, beq_iff_eq, Bool.or_true, step] at h; exact h
+theorem okOrder_replace {s fin : St} {seen : Bool} {ops : List Op}
+    (h : okOrderFrom s fin seen (.replace :: ops) = true) :
+    seen = false ∧ okOrderFrom (replaceQuotas s) fin seen ops = true := by
+  simp only [okOrderFrom, Bool.and_eq_true, Bool.or_false, step, Bool.not_eq_true'] at h; exact h
+theorem okOrder_migrate {s fin : St} {seen : Bool} {ops : List Op}
+    (h : okOrderFrom s fin seen (.migrate :: ops) = true) :
+    s.cache.all (fun e => e.q != dflt || resolve s e.obj == dflt) = true ∧
+      okOrderFrom (migrateAll s) fin seen ops = true := by
+  simp only [okOrderFrom, Bool.and_eq_true, Bool.or_false, step] at h; exact h
+theorem okOrder_qstore {s fin : St} {seen : Bool} {q : QObj} {ops : List Op}
+    (h : okOrderFrom s fin seen (.qstore q :: ops) = true) : okOrderFrom (storePut s q) fin seen ops = true := by
+  simp only [okOrderFrom, Bool.and_eq_true, Bool.or_false, step, Bool.true_and] at h; exact h
+theorem okOrder_qput {s fin : St} {seen : Bool} {q : QObj} {ops : List Op}
+    (h : okOrderFrom s fin seen (.qput q :: ops) = true) : okOrderFrom (onQuotaPut s q) fin seen ops = true := by
+  simp only [okOrderFrom, Bool.and_eq_true, Bool.or_false, step, Bool.true_and] at h; exact h
 
 theorem DInv_run {fin : St} {A : List PodObj} {F : List QObj} (hnd : NodupIds A) (hnn : ∀ o ∈ A, 0 ≤ o.req) :
     ∀ (d : List Op) (s : St) (seen : Bool), DInv s A (resolve fin) → d.all (isDeliveryOp F A) = true →
@@ -294,9 +286,27 @@ theorem DInv_run {fin : St} {A : List PodObj} {F : List QObj} (hnd : NodupIds A)
   | cons op d ih =>
     intro s seen h hd ho
     simp only [List.all_cons, Bool.and_eq_true] at hd
-    have h1 := DInv_step h hnd hnn hd.1 ho
-    rw [okOrder_cons, Bool.and_eq_true] at ho
-    exact ih (step s op) _ h1 hd.2 ho.2
+    obtain ⟨hop, hd⟩ := hd
+    show DInv (run (step s op) d) A (resolve fin)
+    cases op with
+    | qstore q => exact ih _ _ (DInv_congr h rfl rfl rfl h.k1) hd (okOrder_qstore ho)
+    | qput q =>
+      exact ih _ _ (DInv_congr h (onQuotaPut_cache s q) (onQuotaPut_req s q) (onQuotaPut_used s q)
+        (by show (onQuotaPut s q).known.contains dflt = true; rw [onQuotaPut_known, h.k1]; rfl)) hd (okOrder_qput ho)
+    | replace =>
+      exact ih _ _ (DInv_empty _ _ _ ((replace_known s dflt).2 (Or.inl rfl)) rfl rfl rfl) hd (okOrder_replace ho).2
+    | padd p =>
+      simp only [isDeliveryOp, List.contains_eq_mem, decide_eq_true_eq] at hop
+      exact ih _ _ (DInv_padd h hnd hnn hop (okOrder_padd ho).1) hd (okOrder_padd ho).2
+    | migrate =>
+      have := okOrder_migrate ho
+      simp only [step]; rw [migrateAll_noop s this.1] at this ⊢
+      exact ih _ _ h hd this.2
+    | qdel n => simp [isDeliveryOp] at hop
+    | pupd o n => simp [isDeliveryOp] at hop
+    | pdel p => simp [isDeliveryOp] at hop
+    | resv p => simp [isDeliveryOp] at hop
+    | unresv p => simp [isDeliveryOp] at hop
 
 /-- once a pod has been delivered nothing of a delivery removes a cache entry -/
 theorem deliv_hasE_mono {fin : St} {A : List PodObj} {F : List QObj} {q pid : Nat} :
@@ -308,38 +318,23 @@ theorem deliv_hasE_mono {fin : St} {A : List PodObj} {F : List QObj} {q pid : Na
   | cons op d ih =>
     intro s hd ho h
     simp only [List.all_cons, Bool.and_eq_true] at hd
-    rw [okOrder_cons, Bool.and_eq_true] at ho
-    have : hasE (step s op) q pid = true := by
-      cases op with
-      | qstore x => exact h
-      | qput x => rw [hasE_congr (onQuotaPut_cache s x)]; exact h
-      | replace => simp at ho
-      | padd p => simp only [step, onPodAdd, hasE_mgrPodAdd, h, Bool.true_or]
-      | migrate => simp only [step]; rw [migrateAll_noop s ho.1]; exact h
-      | qdel n => simp [isDeliveryOp] at hd
-      | pupd o n => simp [isDeliveryOp] at hd
-      | pdel p => simp [isDeliveryOp] at hd
-      | resv p => simp [isDeliveryOp] at hd
-      | unresv p => simp [isDeliveryOp] at hd
-    have hs : (true || (match op with | .padd _ => true | _ => false)) = true := by simp
-    rw [hs] at ho
-    exact ih (step s op) hd.2 ho.2 this
-
-theorem deliv_k1 {fin : St} {A : List PodObj} {F : List QObj} {s : St} {op : Op} {seen : Bool} {ops : List Op}
-    (hop : isDeliveryOp F A op = true) (ho : okOrderFrom s fin seen (op :: ops) = true)
-    (h : s.known.contains dflt = true) : (step s op).known.contains dflt = true := by
-  rw [okOrder_cons, Bool.and_eq_true] at ho
-  cases op with
-  | qstore q => exact h
-  | qput q => rw [onQuotaPut_known, h]; rfl
-  | replace => rw [replace_known]; rfl
-  | padd p => simp only [step, onPodAdd, mgrPodAdd_known]; exact h
-  | migrate => simp only [step]; rw [migrateAll_noop s ho.1]; exact h
-  | qdel n => simp [isDeliveryOp] at hop
-  | pupd o n => simp [isDeliveryOp] at hop
-  | pdel p => simp [isDeliveryOp] at hop
-  | resv p => simp [isDeliveryOp] at hop
-  | unresv p => simp [isDeliveryOp] at hop
+    obtain ⟨hop, hd⟩ := hd
+    show hasE (run (step s op) d) q pid = true
+    cases op with
+    | qstore x => exact ih _ hd (okOrder_qstore ho) h
+    | qput x => exact ih _ hd (okOrder_qput ho) (by show hasE (onQuotaPut s x) q pid = true; rw [hasE_congr (onQuotaPut_cache s x)]; exact h)
+    | replace => exact absurd (okOrder_replace ho).1 (by simp)
+    | padd p =>
+      exact ih _ hd (okOrder_padd ho).2 (by simp only [step, onPodAdd, hasE_mgrPodAdd, h, Bool.true_or])
+    | migrate =>
+      have := okOrder_migrate ho
+      simp only [step]; rw [migrateAll_noop s this.1] at this ⊢
+      exact ih _ hd this.2 h
+    | qdel n => simp [isDeliveryOp] at hop
+    | pupd o n => simp [isDeliveryOp] at hop
+    | pdel p => simp [isDeliveryOp] at hop
+    | resv p => simp [isDeliveryOp] at hop
+    | unresv p => simp [isDeliveryOp] at hop
 
 theorem deliv_cov {fin : St} {A : List PodObj} {F : List QObj} {p : PodObj} :
     ∀ (d : List Op) (s : St) (seen : Bool), d.all (isDeliveryOp F A) = true → okOrderFrom s fin seen d = true →
@@ -350,23 +345,327 @@ theorem deliv_cov {fin : St} {A : List PodObj} {F : List QObj} {p : PodObj} :
   | nil => intro s _ _ _ _ h; simp at h
   | cons op d ih =>
     intro s seen hd ho hk hc
-    have hk' := deliv_k1 (List.all_cons ▸ Bool.and_eq_true _ _ ▸ hd).1 ho hk
     simp only [List.all_cons, Bool.and_eq_true] at hd
-    have ho' := ho
-    rw [okOrder_cons, Bool.and_eq_true] at ho'
-    by_cases hop : op = .padd p
-    · subst hop
-      have h1 : resolve s p = resolve fin p := by simpa using ho'.1
+    obtain ⟨hop, hd⟩ := hd
+    show hasE (run (step s op) d) (resolve fin p) p.id = true
+    by_cases hop' : op = .padd p
+    · subst hop'
+      have h1 := okOrder_padd ho
       have h2 : hasE (step s (.padd p)) (resolve fin p) p.id = true := by
-        simp only [step, onPodAdd, hasE_mgrPodAdd, resolve_known s p hk, h1]; simp
-      have hs : (seen || (match Op.padd p with | .padd _ => true | _ => false)) = true := by simp
-      rw [hs] at ho'
-      exact deliv_hasE_mono d _ hd.2 ho'.2 h2
-    · have : d.contains (.padd p) = true := by
+        rw [← h1.1]; simp only [step, onPodAdd, hasE_mgrPodAdd, resolve_known s p hk]; simp
+      exact deliv_hasE_mono d _ hd h1.2 h2
+    · have hc' : d.contains (.padd p) = true := by
         simp only [List.contains_cons, Bool.or_eq_true, beq_iff_eq] at hc
         rcases hc with hc | hc
-        · exact absurd hc.symm hop
+        · exact absurd hc.symm hop'
         · exact hc
-      exact ih (step s op) _ hd.2 ho'.2 hk' this
+      cases op with
+      | qstore q => exact ih _ _ hd (okOrder_qstore ho) hk hc'
+      | qput q => exact ih _ _ hd (okOrder_qput ho) (by show (onQuotaPut s q).known.contains dflt = true; rw [onQuotaPut_known, hk]; rfl) hc'
+      | replace => exact ih _ _ hd (okOrder_replace ho).2 ((replace_known s dflt).2 (Or.inl rfl)) hc'
+      | padd p' =>
+        exact ih _ _ hd (okOrder_padd ho).2 (by simp only [step, onPodAdd, mgrPodAdd_known]; exact hk) hc'
+      | migrate =>
+        have := okOrder_migrate ho
+        simp only [step]; rw [migrateAll_noop s this.1] at this ⊢
+        exact ih _ _ hd this.2 hk hc'
+      | qdel n => simp [isDeliveryOp] at hop
+      | pupd o n => simp [isDeliveryOp] at hop
+      | pdel p => simp [isDeliveryOp] at hop
+      | resv p => simp [isDeliveryOp] at hop
+      | unresv p => simp [isDeliveryOp] at hop
+
+/-! ### store / known along a delivery -/
+
+theorem mgrMigrate_known (s : St) (p : PodObj) (out inn : Nat) : (mgrMigrate s p out inn).known = s.known := by
+  unfold mgrMigrate; simp only []
+  split <;> split <;> (try split) <;> simp
+theorem mgrMigrate_store (s : St) (p : PodObj) (out inn : Nat) : (mgrMigrate s p out inn).store = s.store := by
+  unfold mgrMigrate; simp only []
+  split <;> split <;> (try split) <;> simp
+
+theorem migrateAll_known_store (s : St) : (migrateAll s).known = s.known ∧ (migrateAll s).store = s.store := by
+  unfold migrateAll
+  generalize s.cache.filter (fun e => e.q == dflt) = L
+  induction L generalizing s with
+  | nil => exact ⟨rfl, rfl⟩
+  | cons e L ih =>
+    simp only [List.foldl_cons]
+    split
+    · exact ih s
+    · obtain ⟨h1, h2⟩ := ih (mgrMigrate s e.obj dflt (resolve s e.obj))
+      rw [h1, h2, mgrMigrate_known, mgrMigrate_store]; exact ⟨rfl, rfl⟩
+
+theorem eq_of_name {F : List QObj} (h : (F.map (·.name)).Nodup) {a b : QObj} (ha : a ∈ F) (hb : b ∈ F)
+    (hab : a.name = b.name) : a = b := by
+  induction F with
+  | nil => cases ha
+  | cons x F ih =>
+    simp only [List.map_cons, List.nodup_cons, List.mem_map, not_exists, not_and] at h
+    rcases List.mem_cons.1 ha with rfl | ha' <;> rcases List.mem_cons.1 hb with rfl | hb'
+    · rfl
+    · exact absurd hab.symm (h.1 b hb')
+    · exact absurd hab (h.1 a ha')
+    · exact ih h.2 ha' hb'
+
+theorem mem_storePut (s : St) (q x : QObj) :
+    x ∈ (storePut s q).store ↔ x = q ∨ (x ∈ s.store ∧ x.name ≠ q.name) := by
+  simp [storePut]
+
+theorem name_storePut (s : St) (q : QObj) (n : Nat) :
+    (∃ x ∈ (storePut s q).store, x.name = n) ↔ (n = q.name ∨ ∃ x ∈ s.store, x.name = n) := by
+  constructor
+  · rintro ⟨x, hx, rfl⟩
+    rcases (mem_storePut s q x).1 hx with rfl | h
+    · exact Or.inl rfl
+    · exact Or.inr ⟨x, h.1, rfl⟩
+  · rintro (rfl | ⟨x, hx, rfl⟩)
+    · exact ⟨q, (mem_storePut s q q).2 (Or.inl rfl), rfl⟩
+    · by_cases h : x.name = q.name
+      · exact ⟨q, (mem_storePut s q q).2 (Or.inl rfl), h.symm⟩
+      · exact ⟨x, (mem_storePut s q x).2 (Or.inr ⟨hx, h⟩), rfl⟩
+
+/-- known quotas are the two built-in ones and names of the store (holds along ANY history) -/
+structure KInv (s : St) : Prop where
+  kn : ∀ n, s.known.contains n = true → n = 1 ∨ n = 2 ∨ ∃ q ∈ s.store, q.name = n
+  k1 : s.known.contains 1 = true
+  k2 : s.known.contains 2 = true
+
+theorem KInv_init : KInv {} := ⟨fun n h => by simp at h; omega, rfl, rfl⟩
+
+theorem KInv_same {s t : St} (h : KInv s) (hk : t.known = s.known) (hs : t.store = s.store) : KInv t :=
+  ⟨fun n hn => by rw [hs]; rw [hk] at hn; exact h.kn n hn, by rw [hk]; exact h.k1, by rw [hk]; exact h.k2⟩
+
+theorem KInv_qstore {s : St} (h : KInv s) (q : QObj) : KInv (storePut s q) := by
+  refine ⟨fun n hn => ?_, h.k1, h.k2⟩
+  rcases h.kn n hn with h1 | h1 | h1
+  · exact Or.inl h1
+  · exact Or.inr (Or.inl h1)
+  · exact Or.inr (Or.inr ((name_storePut s q n).2 (Or.inr h1)))
+
+theorem KInv_qput {s : St} (h : KInv s) (q : QObj) : KInv (onQuotaPut s q) := by
+  refine ⟨fun n hn => ?_, by rw [onQuotaPut_known, h.k1]; rfl, by rw [onQuotaPut_known, h.k2]; rfl⟩
+  rw [onQuotaPut_known, Bool.or_eq_true, beq_iff_eq] at hn
+  rw [onQuotaPut_store]
+  rcases hn with hn | hn
+  · rcases h.kn n hn with h1 | h1 | h1
+    · exact Or.inl h1
+    · exact Or.inr (Or.inl h1)
+    · exact Or.inr (Or.inr ((name_storePut s q n).2 (Or.inr h1)))
+  · exact Or.inr (Or.inr ((name_storePut s q n).2 (Or.inl hn)))
+
+theorem KInv_replace (s : St) : KInv (replaceQuotas s) :=
+  ⟨fun n hn => (replace_known s n).1 hn, (replace_known s 1).2 (Or.inl rfl), (replace_known s 2).2 (Or.inr (Or.inl rfl))⟩
+
+theorem KInv_deliv {F : List QObj} {A : List PodObj} :
+    ∀ (d : List Op) (s : St), d.all (isDeliveryOp F A) = true → KInv s → KInv (run s d) := by
+  intro d
+  induction d with
+  | nil => intro s _ h; exact h
+  | cons op d ih =>
+    intro s hd h
+    simp only [List.all_cons, Bool.and_eq_true] at hd
+    obtain ⟨hop, hd⟩ := hd
+    show KInv (run (step s op) d)
+    cases op with
+    | qstore q => exact ih _ hd (KInv_qstore h q)
+    | qput q => exact ih _ hd (KInv_qput h q)
+    | replace => exact ih _ hd (KInv_replace s)
+    | padd p => exact ih _ hd (KInv_same h (mgrPodAdd_known _ _ _) (mgrPodAdd_store _ _ _))
+    | migrate => exact ih _ hd (KInv_same h (migrateAll_known_store s).1 (migrateAll_known_store s).2)
+    | qdel n => simp [isDeliveryOp] at hop
+    | pupd o n => simp [isDeliveryOp] at hop
+    | pdel p => simp [isDeliveryOp] at hop
+    | resv p => simp [isDeliveryOp] at hop
+    | unresv p => simp [isDeliveryOp] at hop
+
+theorem deliv_store_sub {F : List QObj} {A : List PodObj} :
+    ∀ (d : List Op) (s : St), d.all (isDeliveryOp F A) = true → (∀ q ∈ s.store, q ∈ F) →
+      ∀ q ∈ (run s d).store, q ∈ F := by
+  intro d
+  induction d with
+  | nil => intro s _ h; exact h
+  | cons op d ih =>
+    intro s hd h
+    simp only [List.all_cons, Bool.and_eq_true] at hd
+    obtain ⟨hop, hd⟩ := hd
+    show ∀ q ∈ (run (step s op) d).store, q ∈ F
+    have hput : ∀ q : QObj, q ∈ F → ∀ x ∈ (storePut s q).store, x ∈ F := by
+      intro q hq x hx
+      rcases (mem_storePut s q x).1 hx with rfl | hx
+      · exact hq
+      · exact h x hx.1
+    cases op with
+    | qstore q => exact ih _ hd (hput q (by simpa [isDeliveryOp] using hop))
+    | qput q =>
+      exact ih _ hd (by show ∀ x ∈ (onQuotaPut s q).store, x ∈ F
+                        rw [onQuotaPut_store]; exact hput q (by simpa [isDeliveryOp] using hop))
+    | replace => exact ih _ hd h
+    | padd p => exact ih _ hd (by show ∀ x ∈ (mgrPodAdd s _ p).store, x ∈ F
+                                  rw [mgrPodAdd_store]; exact h)
+    | migrate => exact ih _ hd (by show ∀ x ∈ (migrateAll s).store, x ∈ F
+                                   rw [(migrateAll_known_store s).2]; exact h)
+    | qdel n => simp [isDeliveryOp] at hop
+    | pupd o n => simp [isDeliveryOp] at hop
+    | pdel p => simp [isDeliveryOp] at hop
+    | resv p => simp [isDeliveryOp] at hop
+    | unresv p => simp [isDeliveryOp] at hop
+
+theorem deliv_store_mono {F : List QObj} {A : List PodObj} (hF : (F.map (·.name)).Nodup) {q : QObj} (hq : q ∈ F) :
+    ∀ (d : List Op) (s : St), d.all (isDeliveryOp F A) = true → q ∈ s.store → q ∈ (run s d).store := by
+  intro d
+  induction d with
+  | nil => intro s _ h; exact h
+  | cons op d ih =>
+    intro s hd h
+    simp only [List.all_cons, Bool.and_eq_true] at hd
+    obtain ⟨hop, hd⟩ := hd
+    show q ∈ (run (step s op) d).store
+    have hput : ∀ x : QObj, x ∈ F → q ∈ (storePut s x).store := by
+      intro x hx
+      by_cases hn : q.name = x.name
+      · exact (mem_storePut s x q).2 (Or.inl (eq_of_name hF hq hx hn))
+      · exact (mem_storePut s x q).2 (Or.inr ⟨h, hn⟩)
+    cases op with
+    | qstore x => exact ih _ hd (hput x (by simpa [isDeliveryOp] using hop))
+    | qput x =>
+      exact ih _ hd (by show q ∈ (onQuotaPut s x).store
+                        rw [onQuotaPut_store]; exact hput x (by simpa [isDeliveryOp] using hop))
+    | replace => exact ih _ hd h
+    | padd p => exact ih _ hd (by show q ∈ (mgrPodAdd s _ p).store
+                                  rw [mgrPodAdd_store]; exact h)
+    | migrate => exact ih _ hd (by show q ∈ (migrateAll s).store
+                                   rw [(migrateAll_known_store s).2]; exact h)
+    | qdel n => simp [isDeliveryOp] at hop
+    | pupd o n => simp [isDeliveryOp] at hop
+    | pdel p => simp [isDeliveryOp] at hop
+    | resv p => simp [isDeliveryOp] at hop
+    | unresv p => simp [isDeliveryOp] at hop
+
+theorem deliv_store_cov {F : List QObj} {A : List PodObj} (hF : (F.map (·.name)).Nodup) {q : QObj} (hq : q ∈ F) :
+    ∀ (d : List Op) (s : St), d.all (isDeliveryOp F A) = true →
+      (d.contains (.qput q) = true ∨ d.contains (.qstore q) = true) → q ∈ (run s d).store := by
+  intro d
+  induction d with
+  | nil => intro s _ h; simp at h
+  | cons op d ih =>
+    intro s hd hc
+    have hd' := hd
+    simp only [List.all_cons, Bool.and_eq_true] at hd'
+    show q ∈ (run (step s op) d).store
+    by_cases h1 : op = .qput q
+    · subst h1
+      exact deliv_store_mono hF hq d _ hd'.2 (by
+        show q ∈ (onQuotaPut s q).store
+        rw [onQuotaPut_store]; exact (mem_storePut s q q).2 (Or.inl rfl))
+    · by_cases h2 : op = .qstore q
+      · subst h2
+        exact deliv_store_mono hF hq d _ hd'.2 ((mem_storePut s q q).2 (Or.inl rfl))
+      · apply ih _ hd'.2
+        simp only [List.contains_cons, Bool.or_eq_true, beq_iff_eq] at hc
+        rcases hc with (hc | hc) | (hc | hc)
+        · exact absurd hc.symm h1
+        · exact Or.inl hc
+        · exact absurd hc.symm h2
+        · exact Or.inr hc
+
+/-! ### the rebuilt ledger is canonical -/
+
+theorem run_append (s : St) (a b : List Op) : run s (a ++ b) = run (run s a) b := by
+  simp [run, List.foldl_append]
+
+theorem isDelivery_parts {live : St} {w : World} {d : List Op} (h : isDelivery live w d = true) :
+    d.all (isDeliveryOp live.store w.alive) = true ∧
+    (∀ q ∈ live.store, (d.contains (.qput q) = true ∨ d.contains (.qstore q) = true) ∧
+        (run {} d).known.contains q.name = true) ∧
+    (∀ p ∈ w.alive, d.contains (.padd p) = true) ∧
+    okOrderFrom {} (run {} d) false d = true := by
+  simp only [isDelivery, Bool.and_eq_true, List.all_eq_true, Bool.or_eq_true] at h
+  exact ⟨List.all_eq_true.2 h.1.1.1, h.1.1.2, h.1.2, h.2⟩
+
+/-- store and known set of the rebuilt plugin -/
+theorem fresh_facts {live : St} {w : World} {d : List Op} (hd : isDelivery live w d = true)
+    (hsu : storeUnique live.store = true) :
+    (∀ q, q ∈ live.store ↔ q ∈ (run {} d).store) ∧
+    (∀ n, (run {} d).known.contains n = true ↔ (n = 1 ∨ n = 2 ∨ ∃ q ∈ live.store, q.name = n)) := by
+  obtain ⟨h1, h2, _, _⟩ := isDelivery_parts hd
+  have hF := storeUnique_names hsu
+  have hsub := deliv_store_sub d {} h1 (by intro q hq; cases hq)
+  have hK := KInv_deliv d {} h1 KInv_init
+  refine ⟨fun q => ⟨fun hq => deliv_store_cov hF hq d {} h1 (h2 q hq).1, hsub q⟩, fun n => ⟨fun hn => ?_, ?_⟩⟩
+  · rcases hK.kn n hn with h | h | ⟨q, hq, rfl⟩
+    · exact Or.inl h
+    · exact Or.inr (Or.inl h)
+    · exact Or.inr (Or.inr ⟨q, hsub q hq, rfl⟩)
+  · rintro (rfl | rfl | ⟨q, hq, rfl⟩)
+    · exact hK.k1
+    · exact hK.k2
+    · exact (h2 q hq).2
+
+theorem DInv_init (A : List PodObj) (rf : PodObj → Nat) : DInv {} A rf := DInv_empty _ _ _ rfl rfl rfl rfl
+
+theorem Canon_of_DInv {s : St} {A : List PodObj} (h : DInv s A (resolve s)) (hnd : NodupIds A)
+    (hcov : ∀ o ∈ A, hasE s (resolve s o) o.id = true) : Canon s { alive := A, resvd := [] } := by
+  have hiff : ∀ o ∈ A, ∀ q, hasE s q o.id = (resolve s o == q) := by
+    intro o ho q
+    rw [Bool.eq_iff_iff, beq_iff_eq]
+    constructor
+    · intro he
+      obtain ⟨o', ho', hid, hq⟩ := h.loc he
+      have : o' = o := hnd.eq_of_id ho' ho hid
+      subst this; exact hq.symm
+    · rintro rfl; exact hcov o ho
+  refine ⟨?_, ?_, ?_, ?_⟩
+  · intro q pid
+    rw [Bool.eq_iff_iff, List.any_eq_true]
+    simp only [chargedTo, List.mem_filter, beq_iff_eq]
+    constructor
+    · intro he
+      obtain ⟨o, ho, hid, hq⟩ := h.loc he
+      exact ⟨o, ⟨ho, hq.symm⟩, hid⟩
+    · rintro ⟨o, ⟨ho, rfl⟩, rfl⟩; exact hcov o ho
+  · intro q pid
+    rw [Bool.eq_iff_iff, List.any_eq_true]
+    simp only [chargedTo, List.mem_filter, beq_iff_eq, Bool.and_eq_true, Bool.or_eq_true,
+      List.contains_nil, Bool.false_eq_true, or_false]
+    constructor
+    · intro ha
+      obtain ⟨o, ho, hid, hq⟩ := h.loc (isAssigned_le_hasE _ _ _ ha)
+      subst hid
+      rw [h.asg o ho q, Bool.and_eq_true] at ha
+      exact ⟨o, ⟨ho, hq.symm⟩, rfl, ha.2⟩
+    · rintro ⟨o, ⟨ho, rfl⟩, rfl, hb⟩
+      rw [h.asg o ho, hcov o ho, hb]; rfl
+  · intro q
+    rw [chargedTo_sum, h.req]
+    exact sumBy_congr (fun o ho => hiff o ho q)
+  · intro q
+    rw [chargedTo_sum_asg, h.used]
+    apply sumBy_congr
+    intro o ho
+    show isAssigned s q o.id = (resolve s o == q && (bound o || ([] : List Nat).contains o.id))
+    rw [h.asg o ho q, hiff o ho q]; simp
+
+/-- **the delivery side**: the rebuilt ledger is the canonical ledger of the final objects, and the closing
+    migration tick finds nothing to move -/
+theorem fresh_canon {live : St} {w : World} {d : List Op} (hd : isDelivery live w d = true)
+    (hnd : NodupIds w.alive) (hnn : ∀ o ∈ w.alive, 0 ≤ o.req) :
+    Canon (run {} d) { alive := w.alive, resvd := [] } ∧ run {} (d ++ [.migrate]) = run {} d := by
+  obtain ⟨h1, _, h3, h4⟩ := isDelivery_parts hd
+  have hD := DInv_run (fin := run {} d) hnd hnn d {} false (DInv_init _ _) h1 h4
+  have hcov : ∀ o ∈ w.alive, hasE (run {} d) (resolve (run {} d) o) o.id = true :=
+    fun o ho => deliv_cov d {} false h1 h4 rfl (h3 o ho)
+  refine ⟨Canon_of_DInv hD hnd hcov, ?_⟩
+  rw [run_append]
+  show migrateAll (run {} d) = run {} d
+  apply migrateAll_noop
+  rw [List.all_eq_true]
+  intro e he
+  have hv : (e.q, e.pid, e.obj) ∈ view (run {} d) := List.mem_map.2 ⟨e, he, rfl⟩
+  have := (hD.obj _ hv).2.2
+  simp only at this
+  by_cases hq : e.q = dflt
+  · rw [← this, hq]; simp
+  · simp [hq]
 
 end KoordVerif.C19.Quota
